@@ -81,7 +81,19 @@ func pathOf(r aa.Rule) (string, bool) {
 }
 
 // why two rules that compare equal differ
+func isCommentLine(rs ...aa.Rule) bool {
+	for _, r := range rs {
+		if _, ok := r.(*aa.Comment); ok {
+			return true
+		}
+	}
+	return false
+}
+
 func diffCause(a, b aa.Rule) string {
+	if isCommentLine(a, b) {
+		return "comment-line-in-the-kind-order"
+	}
 	fa, fb := universe.Fields(a, false), universe.Fields(b, false)
 	if strings.EqualFold(fa, fb) {
 		return "case-fold"
@@ -123,6 +135,9 @@ func diffCause(a, b aa.Rule) string {
 }
 
 func tripleCause(kind string, a, b, c aa.Rule) string {
+	if isCommentLine(a, b, c) {
+		return "comment-line-in-the-kind-order"
+	}
 	ifx, plain := 0, 0
 	for _, r := range []aa.Rule{a, b, c} {
 		if inc, ok := r.(*aa.Include); ok {
@@ -257,6 +272,9 @@ func analyse(kind string, U []aa.Rule, cmp func(i, j int) int8) (pairs, triples 
 }
 
 func subsetCause(kind string, sub []aa.Rule) string {
+	if isCommentLine(sub...) {
+		return "comment-line-in-the-kind-order"
+	}
 	for i := range sub {
 		for j := range sub {
 			if i < j && sub[i].Kind() == sub[j].Kind() && sub[i].Compare(sub[j]) == 0 && universe.Fields(sub[i], false) != universe.Fields(sub[j], false) {
